@@ -409,6 +409,14 @@ func (mon) Plan(prop, tier string, seed int64) []drv.Shard {
 		a, _ := json.Marshal(shardArgs{Kind: "conc", Part: i, Count: min(nrand/400, 2000)})
 		out = append(out, drv.Shard{Name: "conc-gomaxprocs" + gmp, Args: a, Env: []string{"GOMAXPROCS=" + gmp}})
 	}
+	for p := 0; p < 4; p++ {
+		sz := 0
+		if tier == "thorough" {
+			sz = 1
+		}
+		a, _ := json.Marshal(shardArgs{Kind: "big", Size: sz, Part: p, Parts: 4})
+		out = append(out, drv.Shard{Name: fmt.Sprintf("big-%d", p), Args: a})
+	}
 	for p := 0; p < parts; p++ {
 		a, _ := json.Marshal(shardArgs{Kind: "rand", Part: p, Parts: parts, Count: nrand / parts})
 		out = append(out, drv.Shard{Name: fmt.Sprintf("rand-%d", p), Args: a})
@@ -576,6 +584,19 @@ func (mn mon) Run(sh drv.Shard, c *drv.Ctx) {
 				break
 			}
 		}
+	case "big":
+		r := rand.New(rand.NewSource(sh.Seed*104729 + 17))
+		for i, cs := range bigCases(r, a.Size > 0) {
+			if i%a.Parts != a.Part {
+				continue
+			}
+			if c.NumSamples() < 2 {
+				c.Sample(map[string]any{"n_routes": len(cs.Routes), "first_route": clip(cs.Routes[0].P, 80), "n_requests": len(cs.Reqs)})
+			}
+			if !exec(cs) {
+				break
+			}
+		}
 	case "rand":
 		r := rand.New(rand.NewSource(sh.Seed*7919 + int64(a.Part)))
 		for i := 0; i < a.Count; i++ {
@@ -690,6 +711,13 @@ func randCase(r *rand.Rand) Case {
 		cs.Reqs = append(cs.Reqs, Req{m, p})
 	}
 	return cs
+}
+
+func clip(s string, n int) string {
+	if len(s) > n {
+		return s[:n] + "…"
+	}
+	return s
 }
 
 func (mn mon) Replay(v drv.Violation, c *drv.Ctx) {
